@@ -15,9 +15,6 @@ NOT_APPLICABLE = {
            "the loader makes of it); the structural ingredients in reach are reported under other properties (C03: loader "
            "and dumper of one layout use the same path per field; C18: enum/flag mappings are inverse; C02: documented "
            "outer forms) and do not add up to a necessary condition worth a separate claim.",
-    "C16": "Type-variable substitution runs over runtime typing objects and user class hierarchies; a source-level rule "
-           "would be a frozen restatement of the resolver. (The tier-G technique used for C17 -- reading from the compiled "
-           "output which loader function is bound per field -- could decide a clause of it; not built.)",
 }
 
 
